@@ -135,10 +135,11 @@ func copyAST(original ast.Node) ast.Node {
 			m[node] = cg
 		case *ast.CompositeLit:
 			m[node] = &ast.CompositeLit{
-				Type:   exprFromMap(m, node.Type),
-				Lbrace: node.Lbrace,
-				Elts:   copyExprList(m, node.Elts),
-				Rbrace: node.Rbrace,
+				Type:       exprFromMap(m, node.Type),
+				Lbrace:     node.Lbrace,
+				Elts:       copyExprList(m, node.Elts),
+				Rbrace:     node.Rbrace,
+				Incomplete: node.Incomplete,
 			}
 		case *ast.DeclStmt:
 			m[node] = &ast.DeclStmt{
@@ -206,9 +207,10 @@ func copyAST(original ast.Node) ast.Node {
 			}
 		case *ast.FuncType:
 			m[node] = &ast.FuncType{
-				Func:    node.Func,
-				Params:  fieldListFromMap(m, node.Params),
-				Results: fieldListFromMap(m, node.Results),
+				Func:       node.Func,
+				TypeParams: fieldListFromMap(m, node.TypeParams),
+				Params:     fieldListFromMap(m, node.Params),
+				Results:    fieldListFromMap(m, node.Results),
 			}
 		case *ast.GenDecl:
 			decl := &ast.GenDecl{
@@ -263,6 +265,13 @@ func copyAST(original ast.Node) ast.Node {
 				Index:  exprFromMap(m, node.Index),
 				Rbrack: node.Rbrack,
 			}
+		case *ast.IndexListExpr:
+			m[node] = &ast.IndexListExpr{
+				X:       exprFromMap(m, node.X),
+				Lbrack:  node.Lbrack,
+				Indices: copyExprList(m, node.Indices),
+				Rbrack:  node.Rbrack,
+			}
 		case *ast.InterfaceType:
 			m[node] = &ast.InterfaceType{
 				Interface:  node.Interface,
@@ -300,6 +309,7 @@ func copyAST(original ast.Node) ast.Node {
 				Value:  exprFromMap(m, node.Value),
 				TokPos: node.TokPos,
 				Tok:    node.Tok,
+				Range:  node.Range,
 				X:      exprFromMap(m, node.X),
 				Body:   blockStmtFromMap(m, node.Body),
 			}
@@ -361,11 +371,12 @@ func copyAST(original ast.Node) ast.Node {
 			}
 		case *ast.TypeSpec:
 			m[node] = &ast.TypeSpec{
-				Doc:     commentGroupFromMap(m, node.Doc),
-				Name:    identFromMap(m, node.Name),
-				Assign:  node.Assign,
-				Type:    exprFromMap(m, node.Type),
-				Comment: commentGroupFromMap(m, node.Comment),
+				Doc:        commentGroupFromMap(m, node.Doc),
+				Name:       identFromMap(m, node.Name),
+				TypeParams: fieldListFromMap(m, node.TypeParams),
+				Assign:     node.Assign,
+				Type:       exprFromMap(m, node.Type),
+				Comment:    commentGroupFromMap(m, node.Comment),
 			}
 		case *ast.TypeSwitchStmt:
 			m[node] = &ast.TypeSwitchStmt{
